@@ -2,7 +2,7 @@
    replaying the pending node notifications onto the node store yields exactly the API objects.  Hence delivering the
    pending notifications empties the feed and leaves the store equal to the API objects: a world in which the controller
    and the informers run becomes QUIET by draining the feed, and the convergence theorem of C11 applies. *)
-From NIPAM Require Import Sys Geom_proofs Pool_proofs Prio_proofs Alloc_proofs Inv_proofs Sys_proofs World_proofs Complete_proofs Resv_proofs Path_proofs NoPanic_proofs Hist_proofs Hist2_proofs Hist3_proofs Progress_proofs Conv_proofs.
+From NIPAM Require Import Sys Geom_proofs Pool_proofs Prio_proofs Alloc_proofs Inv_proofs Sys_proofs World_proofs Complete_proofs Resv_proofs Path_proofs NoPanic_proofs Hist_proofs Hist2_proofs Hist3_proofs Hist4_proofs Store_proofs Progress_proofs Conv_proofs.
 From Coq Require Import Lia.
 Open Scope N_scope.
 
@@ -260,7 +260,7 @@ Section Drain.
     destruct (HI (length (w_nfeed w)) w I K) as [I' K2].
     constructor; try assumption.
     - exact (M' m Em).
-    - rewrite N'. exact K'.
+    - rewrite N'. apply seq_of_eq; [exact K'|]. apply views_nd. exact (co_names w C).
     - rewrite N'. exact (co_names w C).
     - rewrite N'. exact Hdel.
   Qed.
